@@ -25,6 +25,13 @@ effective_throughput, WhiteningBD) on a MultiUserChannelMatrixExtInt:
      Ns_k <= n - rank(R_ext,k) streams
   B6 capacity / effective_throughput: the kept number of streams is no worse
      (metric recomputed here from first-principle SINRs) than every fixed choice
+Part H (object re-use histories): ONE EnhancedBD / WhiteningBD / BlockDiagonalizer
+object; every event sequence of length <= 3 (thorough 4) ending in a run, from every
+initially configured metric, over the events set_ext_int_handling_metric(None |
+naive,1|2 | fixed,1|2 | capacity | effective_throughput), iPu = v, noise_var = v,
+pe = v, run on channel A (K=2,n=2,rank 1) | channel B (K=2,n=3,rank 2).  After the
+last run: all B- (resp. A-) relations for the CURRENT configuration (model: last
+assignment wins) and bit-for-bit equality with a freshly constructed object.
 """
 import math
 
@@ -36,7 +43,7 @@ from vmc.parallel import run_shards, shard
 
 PID = "C09"
 LEVEL = "exploration"
-ENGINE = "E1 exhaustive product enumerator"
+ENGINE = "E1 exhaustive product enumerator + E3-style exhaustive event histories on one re-used object"
 RULE = ("A: (K,n) in {2,3}x{1,2,3} x {generic G_s, weak user, weak antenna, kappa=1e3} x iPu{1,0.5,2.5} "
         "x noise{1,1e-3,0.1,10} through block_diagonalize and block_diagonalize_no_waterfilling; "
         "B: same layouts x {generic, weak user} x ext-int rank{1,2} x pe{1,0.1,10} x noise{None,1e-3,0.1,1,10} "
@@ -45,7 +52,10 @@ RULE = ("A: (K,n) in {2,3}x{1,2,3} x {generic G_s, weak user, weak antenna, kapp
         "against the literal channel matrix, a reference global water-filling over independently computed "
         "stream gains, interference removal W R_ext W^H = 0, metric-optimal stream count. Every case is "
         "non-trivial (all users interfere: no zero block in any family member); distinct = (part, layout, "
-        "family member, iPu, noise, rank, pe, variant)")
+        "family member, iPu, noise, rank, pe, variant). H: one re-used EnhancedBD/WhiteningBD/"
+        "BlockDiagonalizer object x every event sequence <= depth 3 (thorough 4) ending in a run over "
+        "{set metric x7, iPu x2, pe x2, noise_var, run A|B}; result of the last run checked against the "
+        "relations for the current configuration and bit-for-bit against a fresh object; distinct = history")
 
 LAYOUTS = ((2, 1), (2, 2), (3, 1), (2, 3), (3, 2), (3, 3))
 IPUS = (1.0, 0.5, 2.5)
@@ -134,9 +144,9 @@ def block(M, k, n, axis):
 # ----------------------------------------------------------------------
 # Part A
 # ----------------------------------------------------------------------
-def check_plain(chk, H, K, n, iPu, noise, method, newH, Ms, W, case, kappaH, normH):
+def check_plain(chk, H, K, n, iPu, noise, method, newH, Ms, W, case, kappaH, normH, tag=""):
     N = K * n
-    name = "BlockDiagonalizer." + method
+    name = "BlockDiagonalizer." + method + tag
     newH = np.asarray(newH)
     Ms = np.asarray(Ms)
     if newH.shape != (N, N) or Ms.shape != (N, N) or not np.all(np.isfinite(newH)) \
@@ -235,6 +245,10 @@ def eval_plain(chk, H, K, n, iPu, noise, case):
     if bigH.shape != H.shape or not np.array_equal(bigH, H):
         chk.fail(("MultiUserChannelMatrix", "big_H_ne_init_matrix"), case, observed=bigH, expected=H)
         return
+    # non-vacuity from the oracle side: how many streams the reference water-filling switches off
+    gref = np.concatenate(stream_gains(H, K, n)) ** 2
+    Pref, _ = ref_waterfilling(gref.tolist(), K * iPu, noise)
+    chk.outcome("ref_switched_off_streams", (K, n, sum(1 for v in Pref if v == 0.0)))
     for method in ("block_diagonalize", "block_diagonalize_no_waterfilling"):
         with chk.guard(("BlockDiagonalizer." + method,), dict(case, method=method)):
             chk.count("eval_plain_bd")
@@ -265,6 +279,25 @@ def variants(n):
     yield ("enhanced", "capacity", None)
     yield ("enhanced", "effective_throughput", None)
     yield ("whitening", None, None)
+
+
+def make_ext_channel(Hfull, K, n, r, noise):
+    from pyphysim.channels import multiuser
+    mc = multiuser.MultiUserChannelMatrixExtInt()
+    mc.init_from_channel_matrix(Hfull.copy(), np.full(K, n), np.full(K, n), K, r)
+    if noise is not None:
+        mc.noise_var = noise
+    return mc
+
+
+def apply_metric(obj, metric, ns):
+    from pyphysim.modulators import fundamental
+    if metric in ("naive", "fixed"):
+        obj.set_ext_int_handling_metric(metric, {"num_streams": ns})
+    elif metric == "effective_throughput":
+        obj.set_ext_int_handling_metric(metric, {"modulator": fundamental.PSK(4), "packet_length": 60})
+    else:
+        obj.set_ext_int_handling_metric(metric)
 
 
 def run_variant(Hfull, K, n, r, noise, pe, iPu, variant):
@@ -324,9 +357,9 @@ def own_kappa(kind, metric, nsk, n, A, Re_k):
     return float(sv[0] / sv[-1]) if sv[-1] > 0 else math.inf
 
 
-def check_ext(chk, Hfull, K, n, r, noise, pe, iPu, variant, res, case):
+def check_ext(chk, Hfull, K, n, r, noise, pe, iPu, variant, res, case, tag=()):
     kind, metric, ns = variant
-    name = ("WhiteningBD" if kind == "whitening" else "EnhancedBD", str(metric))
+    name = ("WhiteningBD" if kind == "whitening" else "EnhancedBD", str(metric)) + tuple(tag)
     N = K * n
     H = Hfull[:, :N]
     He = Hfull[:, N:]
@@ -359,7 +392,6 @@ def check_ext(chk, Hfull, K, n, r, noise, pe, iPu, variant, res, case):
             kap_whole = smax / smin if smin > 0 else math.inf
         except Exception:  # malformed precoders are reported by B1 below
             kap_whole = None
-    chk.outcome("metric_x_rank", (kind, str(metric), r))
     for k in range(K):
         Msk = np.asarray(Ms_all[k])
         Wk = np.asarray(W_all[k])
@@ -445,11 +477,153 @@ def check_ext(chk, Hfull, K, n, r, noise, pe, iPu, variant, res, case):
 def eval_ext(chk, Hfull, K, n, r, noise, pe, iPu, variant, case):
     kind, metric, ns = variant
     name = ("WhiteningBD" if kind == "whitening" else "EnhancedBD", str(metric))
+    # non-vacuity from the oracle side, before the library runs
+    chk.outcome("metric_x_rank", (kind, str(metric), r))
+    if metric == "fixed" and ns <= n - min(n, r):
+        chk.outcome("removal_required", (n, r, ns))
     with chk.guard(name, case):
         chk.count("eval_extint_bd")
         res = run_variant(Hfull, K, n, r, noise, pe, iPu, variant)
         check_ext(chk, Hfull, K, n, r, noise, pe, iPu, variant, res, case)
     chk.nontriv(("B", K, n, case["family"], case["s"], r, noise, pe, iPu, kind, str(metric), ns))
+
+
+# ----------------------------------------------------------------------
+# Part H: ONE BD object re-configured and re-used (explicit-state exploration
+# of event histories, every history executed on the implementation)
+# ----------------------------------------------------------------------
+H_METRICS = ((None, None), ("naive", 1), ("naive", 2), ("fixed", 1), ("fixed", 2),
+             ("capacity", None), ("effective_throughput", None))
+H_CHANNELS = {"A": (2, 2, 1, 0.1), "B": (2, 3, 2, 1.0)}      # K, n, ext-int rank, channel noise
+H_INIT = {"iPu": 1.0, "noise_var": 1.0, "pe": 1.0}
+
+
+def hist_channels():
+    out = {}
+    for name, (K, n, r, noise) in H_CHANNELS.items():
+        H = families.generic(700 + n, (K * n, K * n), True, tag=9)
+        out[name] = np.hstack([H, ext_channel(K, n, r, 700 + n)])
+    return out
+
+
+def hist_events(cls):
+    attrs = [("iPu", 0.5), ("iPu", 2.5), ("pe", 0.1), ("pe", 10.0)]
+    if cls == "EnhancedBD":
+        return ([("metric", m, ns) for m, ns in H_METRICS] + attrs + [("noise_var", 0.1)]
+                + [("run", "A"), ("run", "B")])
+    if cls == "WhiteningBD":
+        return attrs + [("noise_var", 0.1), ("run", "A"), ("run", "B")]
+    return [("iPu", 0.5), ("iPu", 2.5), ("noise_var", 1e-2), ("noise_var", 10.0),
+            ("run_wf", "A"), ("run_wf", "B"), ("run_nowf", "A"), ("run_nowf", "B")]
+
+
+def hist_sequences(tier):
+    """every event sequence of length <= D that ends in a run, for every class and
+    every initially configured metric (EnhancedBD)"""
+    import itertools
+    D = 4 if tier == "thorough" else 3
+    for cls in ("EnhancedBD", "WhiteningBD", "BlockDiagonalizer"):
+        evs = hist_events(cls)
+        runs = [e for e in evs if e[0].startswith("run")]
+        inits = [(("metric", m, ns),) for m, ns in H_METRICS] if cls == "EnhancedBD" else [()]
+        for init in inits:
+            for L in range(1, D + 1):
+                for pre in itertools.product(evs, repeat=L - 1):
+                    for last in runs:
+                        yield cls, init, tuple(pre) + (last,)
+
+
+def run_history(chk, cls, init, seq, chans, case):
+    """execute the history on ONE object; check the result of the LAST run against
+    the relations for the current configuration and against a fresh object"""
+    from pyphysim.comm import blockdiagonalization as bdm
+    from vmc import bfs
+    cfg = dict(H_INIT, metric=None, ns=None)
+    K = 2
+    if cls == "EnhancedBD":
+        obj = bdm.EnhancedBD(K, cfg["iPu"], cfg["noise_var"], cfg["pe"])
+    elif cls == "WhiteningBD":
+        obj = bdm.WhiteningBD(K, cfg["iPu"], cfg["noise_var"], cfg["pe"])
+    else:
+        obj = bdm.BlockDiagonalizer(K, cfg["iPu"], cfg["noise_var"])
+    mcs = {}
+    res = None
+    last = None
+    changed = set()
+    prev = bfs.digest(vars(obj))
+    chk.outcome("history_states", (cls, prev))
+    for ev in tuple(init) + tuple(seq):
+        if ev[0] == "metric":
+            apply_metric(obj, ev[1], ev[2])
+            cfg["metric"], cfg["ns"] = ev[1], ev[2]
+            changed.add("metric")
+        elif ev[0] in ("iPu", "noise_var", "pe"):
+            setattr(obj, ev[0], ev[1])
+            cfg[ev[0]] = ev[1]
+            changed.add(ev[0])
+        else:
+            name = ev[1]
+            Kc, n, r, cnoise = H_CHANNELS[name]
+            if cls == "BlockDiagonalizer":
+                Hp = chans[name][:, :Kc * n]
+                method = "block_diagonalize" if ev[0] == "run_wf" else "block_diagonalize_no_waterfilling"
+                res = getattr(obj, method)(Hp.copy())
+            else:
+                if name not in mcs:
+                    mcs[name] = make_ext_channel(chans[name], Kc, n, r, cnoise)
+                res = obj.block_diagonalize_no_waterfilling(mcs[name])
+            last = (ev, tuple(sorted(changed)))
+            changed = set()
+        chk.count("eval_history_events")
+        cur = bfs.digest(vars(obj))
+        chk.outcome("history_states", (cls, cur))
+        chk.outcome("history_transitions", (cls, prev, repr(ev)))
+        prev = cur
+    ev, since = last
+    how = "after_" + ("+".join(since) if since else "rerun")
+    name = ev[1]
+    Kc, n, r, cnoise = H_CHANNELS[name]
+    chk.count("eval_history_runs_checked")
+    if cls == "BlockDiagonalizer":
+        Hp = chans[name][:, :Kc * n]
+        method = "block_diagonalize" if ev[0] == "run_wf" else "block_diagonalize_no_waterfilling"
+        newH, Ms = res
+        sv = np.linalg.svd(Hp, compute_uv=False)
+        W = obj.calc_receive_filter(newH)
+        check_plain(chk, Hp, Kc, n, cfg["iPu"], cfg["noise_var"], method, newH, Ms, W, case,
+                    float(sv[0] / sv[-1]), float(sv[0]), tag="[reused_object]")
+        fresh = getattr(bdm.BlockDiagonalizer(K, cfg["iPu"], cfg["noise_var"]), method)(Hp.copy())
+        same = all(np.array_equal(np.asarray(a), np.asarray(b)) for a, b in zip(res, fresh))
+    else:
+        kind = "whitening" if cls == "WhiteningBD" else "enhanced"
+        variant = (kind, cfg["metric"], cfg["ns"])
+        check_ext(chk, chans[name], Kc, n, r, cnoise, cfg["pe"], cfg["iPu"], variant, res, case,
+                  tag=("reused_object",))
+        if cls == "WhiteningBD":
+            fo = bdm.WhiteningBD(K, cfg["iPu"], cfg["noise_var"], cfg["pe"])
+        else:
+            fo = bdm.EnhancedBD(K, cfg["iPu"], cfg["noise_var"], cfg["pe"])
+            apply_metric(fo, cfg["metric"], cfg["ns"])
+        fresh = fo.block_diagonalize_no_waterfilling(make_ext_channel(chans[name], Kc, n, r, cnoise))
+        same = True
+        for a, b in zip(res, fresh):
+            a, b = list(a), list(b)
+            if len(a) != len(b) or not all(np.array_equal(np.asarray(x), np.asarray(y))
+                                           for x, y in zip(a, b)):
+                same = False
+    if not same:
+        chk.fail((cls, "reused_object", "differs_from_fresh_object", how), case,
+                 observed="power per user %r" % ([float(np.linalg.norm(m) ** 2) for m in res[0]]
+                                                  if cls != "BlockDiagonalizer" else "Ms differs"),
+                 expected="identical to a freshly constructed object with %r" % (cfg,))
+    chk.nontriv(("H", cls, tuple(init), tuple(seq)))
+
+
+def eval_history(chk, cls, init, seq, chans):
+    case = {"part": "H", "cls": cls, "init": [list(e) for e in init], "history": [list(e) for e in seq],
+            "HA": chans["A"], "HB": chans["B"]}
+    with chk.guard((cls, "reused_object"), case):
+        run_history(chk, cls, init, seq, chans, case)
 
 
 # ----------------------------------------------------------------------
@@ -505,26 +679,44 @@ def main(chk):
             run_job(c, job)
         for job in shard(jobs_b(c.tier), i, nsh):
             run_job(c, job)
+        chans = hist_channels()
+        for cls, init, seq in shard(hist_sequences(c.tier), i, nsh):
+            eval_history(c, cls, init, seq, chans)
 
     run_shards(chk, worker)
     H = families.generic(0, (4, 4), True, tag=9)
     chk.sample({"part": "A", "K": 2, "n": 2, "family": "generic", "s": 0, "iPu": 1.0, "noise": 1.0, "H": H})
-    off = [o for o in chk.outcomes.get("switched_off_streams", ()) if o[0] == "block_diagonalize" and o[3] > 0]
+    chk.states = len(chk.outcomes.get("history_states", ()))
+    chk.transitions = len(chk.outcomes.get("history_transitions", ()))
+    chk.traces_validated = int(chk.counters.get("eval_history_runs_checked", 0))
+    chk.sample({"part": "H", "cls": "EnhancedBD", "init": [["metric", "fixed", 2]],
+                "history": [["run", "A"], ["metric", "naive", 1], ["run", "A"]]})
+    # all vacuity conditions use outcomes recorded from the ORACLE side (reference
+    # water-filling, enumerated configuration), never from what the library returned
+    off = [o for o in chk.outcomes.get("ref_switched_off_streams", ()) if o[2] > 0]
     chk.extra["layout_x_count_with_switched_off_streams"] = len(off)
     from vmc.report import Broken
     if len(off) < 3:
-        raise Broken("vacuous: water-filling never switched a stream off (%r)" % (off,))
+        raise Broken("vacuous: the reference water-filling never switches a stream off (%r)" % (off,))
     want = {(k, str(m), r) for (k, m, _) in variants(1) for r in (1, 2)}
     miss = want - set(chk.outcomes.get("metric_x_rank", ()))
     if miss:
         raise Broken("vacuous: metric x rank pairs never evaluated: %r" % sorted(miss))
     chk.require_outcomes("metric_x_rank", 12)
-    chk.require_outcomes("interference_removed", 3)
-    chk.require_outcomes("chosen_streams", 4)
+    chk.require_outcomes("removal_required", 3)
+    chk.require_outcomes("history_states", 20)
 
 
 def replay(case, chk):
-    H = np.asarray(case["H"], dtype=complex)
+    H = np.asarray(case.get("H", case.get("HA")), dtype=complex)
+    if case["part"] == "H":
+        chans = {"A": np.asarray(case["HA"], dtype=complex), "B": np.asarray(case["HB"], dtype=complex)}
+
+        def ev(e):
+            return tuple(e)
+        eval_history(chk, case["cls"], tuple(ev(e) for e in case["init"]),
+                     tuple(ev(e) for e in case["history"]), chans)
+        return
     K, n = int(case["K"]), int(case["n"])
     if case["part"] == "A":
         with chk.guard(("BlockDiagonalizer",), case):
